@@ -231,6 +231,66 @@ theorem viewRecordsC_ok {e e' : Emu} {fo fn : Nat → Bool}
           rw [hvo]; exact hmodel)
     exact ⟨m, hm⟩
 
+/-- … and conversely: if the rows with `cpuViewC` succeed so do the model rows
+    of `records` (a CPU that is still fresh after the event was fresh before, and
+    shows its default in `cpuView` both times). -/
+theorem viewRecords_ok_of_C {e e' : Emu} {fo fn : Nat → Bool} (hmono : ∀ c, fn c = true → fo c = true)
+    (hfreshO : ∀ c ∈ e'.cpus, fo c.gindex = true → ∀ ms ∈ e'.specs, ∀ (i : Nat), i < ms.nch →
+      ms.cpuDflt i ≠ .null → cpuView e (e.cpus.getD c.gindex c) ms i = ms.cpuDflt i)
+    (hfreshN : ∀ c ∈ e'.cpus, fn c.gindex = true → ∀ ms ∈ e'.specs, ∀ (i : Nat), i < ms.nch →
+      ms.cpuDflt i ≠ .null → cpuView e' c ms i = ms.cpuDflt i)
+    {vr : List PrvRec} (h : viewRecordsC e e' fo fn = .ok vr) : ∃ v, viewRecords e e' = .ok v := by
+  obtain ⟨hall, _⟩ := collect_ok_iff.mp h
+  refine ⟨_, collect_ok_iff.mpr ⟨?_, rfl⟩⟩
+  intro x hx
+  rcases List.mem_append.mp hx with hx | hx
+  · exact hall x (List.mem_append_left _ hx)
+  · obtain ⟨c, hc, hx⟩ := List.mem_flatMap.mp hx
+    unfold cpuViewList at hx
+    obtain ⟨ms, hms, hx⟩ := List.mem_flatMap.mp hx
+    obtain ⟨i, hi, rfl⟩ := List.mem_map.mp hx
+    have hil : i < ms.nch := List.mem_range.mp hi
+    have hC : ∃ m, emitView 1 (c.gindex + 1) (ms.pvtType.getD i 0) (ms.prvFlags.getD i 0)
+        (cpuViewC (fo c.gindex) e (e.cpus.getD c.gindex c) ms i) (cpuViewC (fn c.gindex) e' c ms i) = .ok m := by
+      obtain ⟨r, hr⟩ := hall _ (List.mem_append_right _ (List.mem_flatMap.mpr ⟨c, hc, by
+        unfold cpuViewListC
+        exact List.mem_flatMap.mpr ⟨ms, hms, List.mem_map.mpr ⟨i, hi, rfl⟩⟩⟩))
+      exact ⟨r, hr⟩
+    rw [emitView_isOk_iff] at hC
+    obtain ⟨m, hm⟩ := (emitView_isOk_iff 1 (c.gindex + 1) (ms.pvtType.getD i 0) (ms.prvFlags.getD i 0)
+      (cpuView e (e.cpus.getD c.gindex c) ms i) (cpuView e' c ms i)).mpr (by
+      by_cases hn : fn c.gindex = true ∧ ms.cpuDflt i ≠ .null
+      · left
+        rw [hfreshO c hc (hmono _ hn.1) ms hms i hil hn.2, hfreshN c hc hn.1 ms hms i hil hn.2]
+      · have hvn : cpuViewC (fn c.gindex) e' c ms i = cpuView e' c ms i := by unfold cpuViewC; rw [if_neg hn]
+        rw [hvn] at hC
+        by_cases ho : fo c.gindex = true ∧ ms.cpuDflt i ≠ .null
+        · have hvo : cpuViewC (fo c.gindex) e (e.cpus.getD c.gindex c) ms i = .null := by
+            unfold cpuViewC; rw [if_pos ho]
+          rw [hvo] at hC
+          rcases hC with heq | hp
+          · right; rw [← heq]; exact ⟨0, rfl⟩
+          · exact Or.inr hp
+        · have hvo : cpuViewC (fo c.gindex) e (e.cpus.getD c.gindex c) ms i =
+              cpuView e (e.cpus.getD c.gindex c) ms i := by unfold cpuViewC; rw [if_neg ho]
+          rw [hvo] at hC; exact hC)
+    exact ⟨m, hm⟩
+
+/-- When no CPU of the hierarchy is fresh, `viewRecordsC` is `viewRecords`. -/
+theorem viewRecordsC_of_settled {e e' : Emu} {fo fn : Nat → Bool} (hs' : Shaped e')
+    (ho : ∀ c, c < e'.cpus.length → fo c = false) (hn : ∀ c, c < e'.cpus.length → fn c = false) :
+    viewRecordsC e e' fo fn = viewRecords e e' := by
+  unfold viewRecordsC viewRecords
+  congr 2
+  apply flatMap_congr_mem
+  intro c hc
+  obtain ⟨cg, hcg⟩ := List.mem_iff_getElem?.mp hc
+  have hgi : c.gindex = cg := hs'.cpuIdx cg c hcg
+  have hl : c.gindex < e'.cpus.length := by rw [hgi]; exact (List.getElem?_eq_some_iff.mp hcg).1
+  unfold cpuViewListC cpuViewList
+  rw [ho _ hl, hn _ hl]
+  simp only [cpuViewC_false]
+
 /-! ### the invariant at connect time -/
 
 /-- Just connected (`AllNull`): nothing emitted yet, every row shows 0. -/
